@@ -91,13 +91,29 @@ def run_function_directly(g, f, args):
     return rows[0][0]
 
 
-def gen_expr(rng, fns, nodes, depth=1):
-    """node expression AST: ("this",) | ("const", term) | ("path", pred) | ("fn", f, [args])"""
+# filter shapes of sh:filterShape expressions: (Turtle, independent Python predicate over (data graph, node))
+FILTER_SHAPES = [
+    ("[ sh:nodeKind sh:IRI ]", lambda g, n: isinstance(n, URIRef)),
+    ("[ sh:nodeKind sh:Literal ]", lambda g, n: isinstance(n, Literal)),
+    ("[ sh:class ex:P ]", lambda g, n: not isinstance(n, Literal) and (n, RDF.type, EX.P) in g),
+    ("[ sh:property [ sh:path ex:n ; sh:minCount 1 ] ]", lambda g, n: not isinstance(n, Literal) and any(True for _ in g.objects(n, EX.n))),
+    ("[ sh:not [ sh:property [ sh:path ex:k ; sh:minCount 1 ] ] ]", lambda g, n: isinstance(n, Literal) or not any(True for _ in g.objects(n, EX.k))),
+]
+
+
+def gen_expr(rng, fns, nodes, depth=1, rich=False):
+    """node expression AST: ("this",) | ("const", term) | ("path", pred) | ("fn", f, [args]) |
+    ("union", [e..]) | ("inter", [e..]) | ("filter", index into FILTER_SHAPES, e)"""
     r = rng.random()
     if depth <= 0 or r < 0.15:
         return rng.choice([("this",), ("const", Literal(rng.choice([0, 1, 4, 7]))), ("path", rng.choice([EX.n, EX.m, EX.k])), ("const", rng.choice([x for x in nodes if isinstance(x, URIRef)]))])
+    if rich and r < 0.6:
+        k = rng.choice(["union", "inter", "filter", "filter"])
+        if k == "filter":
+            return ("filter", rng.randrange(len(FILTER_SHAPES)), gen_expr(rng, fns, nodes, depth - 1, rich))
+        return (k, [gen_expr(rng, fns, nodes, depth - 1, rich) for _ in range(rng.randint(1, 3))])
     f = rng.choice(fns)
-    return ("fn", f, [gen_expr(rng, fns, nodes, depth - 1) for _ in f["params"]])
+    return ("fn", f, [gen_expr(rng, fns, nodes, depth - 1, rich) for _ in f["params"]])
 
 
 def expr_ttl(e):
@@ -107,6 +123,12 @@ def expr_ttl(e):
         return e[1].n3()
     if e[0] == "path":
         return "[ sh:path %s ]" % e[1].n3()
+    if e[0] == "union":
+        return "[ sh:union ( %s ) ]" % " ".join(expr_ttl(a) for a in e[1])
+    if e[0] == "inter":
+        return "[ sh:intersection ( %s ) ]" % " ".join(expr_ttl(a) for a in e[1])
+    if e[0] == "filter":
+        return "[ sh:filterShape %s ; sh:nodes %s ]" % (FILTER_SHAPES[e[1]][0], expr_ttl(e[2]))
     return "[ %s ( %s ) ]" % (e[1]["node"].n3(), " ".join(expr_ttl(a) for a in e[2]))
 
 
@@ -118,6 +140,26 @@ def oracle_eval(g, e, a, table):
         return {e[1]}
     if e[0] == "path":
         return set(g.objects(a, e[1]))
+    if e[0] == "union":
+        out = set()
+        for x in e[1]:
+            out |= oracle_eval(g, x, a, table)
+        return out
+    if e[0] == "inter":
+        sets = [oracle_eval(g, x, a, table) for x in e[1]]
+        out = set(sets[0]) if sets else set()
+        for s_ in sets[1:]:
+            out &= s_
+        return out
+    if e[0] == "filter":
+        vals = oracle_eval(g, e[2], a, table)
+        keep = set()
+        for n in vals:
+            ok = bool(FILTER_SHAPES[e[1]][1](g, n))
+            table[(EX["filtershape%d" % e[1]], (n,))] = Literal(True) if ok else None
+            if ok:
+                keep.add(n)
+        return keep
     sets = [oracle_eval(g, x, a, table) for x in e[2]]
     if any(len(s) == 0 for s in sets):
         return set()
@@ -140,6 +182,12 @@ def expr_coq(I, e):
         return "NConst (%s)" % I.term(e[1])
     if e[0] == "path":
         return "NPath (PPred %d)" % I.iri_num(str(e[1]))
+    if e[0] == "union":
+        return "NUnion [%s]" % "; ".join("(%s)" % expr_coq(I, a) for a in e[1])
+    if e[0] == "inter":
+        return "NInter [%s]" % "; ".join("(%s)" % expr_coq(I, a) for a in e[1])
+    if e[0] == "filter":
+        return "NFilter %d (%s)" % (I.iri_num(str(EX["filtershape%d" % e[1]])), expr_coq(I, e[2]))
     return "NFunc %d [%s]" % (I.iri_num(str(e[1]["node"])), "; ".join("(%s)" % expr_coq(I, a) for a in e[2]))
 
 
@@ -191,15 +239,17 @@ def main(tier, seed, replay=None):
             meta.append({"kind": "parameter order", "function": function_ttl(f), "real_order": real[str(f["node"])]})
         if kindsel < 0.45:
             # ---- (b) sh:expression
-            e = gen_expr(rng, fns, nodes, depth=rng.choice([1, 1, 2]))
-            if rng.random() < 0.35:
+            rich = rng.random() < 0.4
+            e = gen_expr(rng, fns, nodes, depth=rng.choice([1, 1, 2]) + (1 if rich else 0), rich=rich)
+            stats["expressions_with_union_intersection_filter"] = stats.get("expressions_with_union_intersection_filter", 0) + (1 if rich else 0)
+            if not rich and rng.random() < 0.35:
                 # a comparison over a possibly multi-valued path: the value set may be {true}, {false}, {true, false} or empty
                 gt = {"node": EX.gtfn, "params": [{"name": "lhs", "order": 1}, {"name": "rhs", "order": 2}], "kind": "ask_gt"}
                 if not any(f_["node"] == EX.gtfn for f_ in fns):
                     fns.append(gt)
                     fn_ttl += function_ttl(gt)
                 e = ("fn", gt, [("path", rng.choice([EX.n, EX.m])), ("const", Literal(rng.choice([0, 2, 4])))])
-            if e[0] != "fn" and rng.random() < 0.7:
+            if not rich and e[0] != "fn" and rng.random() < 0.7:
                 e = ("fn", fns[0], [e] + [("const", Literal(3))] * (len(fns[0]["params"]) - 1))
             foci = rng.sample(nodes, rng.randint(1, len(nodes)))
             ttl = PFX + fn_ttl + "ex:S a sh:NodeShape ; sh:expression %s .\n" % expr_ttl(e)
@@ -224,6 +274,31 @@ def main(tier, seed, replay=None):
             stats["advanced_off_cases"] += 1
             if off[0] != "ok" or any(str(r[2]).endswith("ExpressionConstraintComponent") for r in off[2]):
                 diffs.append({"what": "advanced=False still evaluates sh:expression", "shapes_ttl": ttl})
+            if rich:
+                # the value set itself, observed through a TripleRule whose object is the expression
+                ttl_r = PFX + fn_ttl + "ex:S a sh:NodeShape ; sh:rule [ a sh:TripleRule ; sh:subject sh:this ; sh:predicate ex:derived ; sh:object %s ] .\n" % expr_ttl(e)
+                sgr = rdflib.Graph().parse(data=ttl_r, format="turtle")
+                for fnode in foci:
+                    sgr.add((EX.S, SH.targetNode, fnode))
+                try:
+                    outg = pyshacl.shacl_rules(data, shacl_graph=sgr)
+                    err_ = None
+                except Exception as ex_:
+                    outg, err_ = None, "%s: %s" % (type(ex_).__name__, str(ex_)[:200])
+                stats["expression_value_set_cases"] = stats.get("expression_value_set_cases", 0) + 1
+                if err_:
+                    diffs.append({"what": "shacl_rules() with a union/intersection/filterShape object expression failed: " + err_, "shapes_ttl": ttl_r, "data": sorted(data.serialize(format="nt").split("\n"))})
+                else:
+                    for fnode in foci:
+                        tb = {}
+                        want = oracle_eval(data, e, fnode, tb)
+                        got_set = set(outg.objects(fnode, EX.derived))
+                        if got_set != want:
+                            diffs.append({"what": "the values of a union/intersection/filterShape node expression (derived by a TripleRule) differ from its definition", "shapes_ttl": ttl_r,
+                                          "data": sorted(data.serialize(format="nt").split("\n")), "focus": fnode.n3(), "derived": sorted(x.n3() for x in got_set), "expected": sorted(x.n3() for x in want)})
+                            break
+                        bodies.append("check_nexpr %s %s (%s) (%s) %s" % (table_coq(I, tb), I.graph(data), expr_coq(I, e), I.term(fnode), I.terms(sorted(got_set, key=lambda t: t.n3()))))
+                        meta.append({"kind": "expression value set", "shapes_ttl": ttl_r, "focus": fnode.n3()})
             # the same expression on a PROPERTY shape: it is evaluated for each value node (sh:this = the value node)
             vpath = rng.choice([EX.k, EX.k, EX.n, EX.m])
             ttl_p = PFX + fn_ttl + "ex:S a sh:PropertyShape ; sh:path %s ; sh:expression %s .\n" % (vpath.n3(), expr_ttl(e))
@@ -347,7 +422,7 @@ def main(tier, seed, replay=None):
         "evaluations": len(bodies) + stats["expression_cases"] + stats["target_cases"] + 2 * stats["sparql_call_cases"] + stats["advanced_off_cases"],
         "distinct_nontrivial": stats["expression_cases"] + stats["target_cases"] + stats["sparql_call_cases"],
         "rule": "case = 1-3 SPARQL functions (1-3 parameters named so that name order and sh:order disagree; all / none / some with sh:order; SELECT arithmetic that is not commutative in its parameters, ASK comparisons, look-ups that may have no solution) + one of: "
-                "(b) sh:expression over sh:this / constants / paths / nested function calls on IRI and blank-node focus nodes, on node shapes and on property shapes (evaluated per value node): reported nodes = direct evaluation and = Coq model with the function table; "
+                "(b) sh:expression over sh:this / constants / paths / nested function calls / sh:union / sh:intersection / sh:filterShape on IRI and blank-node focus nodes, on node shapes and on property shapes (evaluated per value node): reported nodes = direct evaluation and = Coq model with the function table; "
                 "(c) sh:target with SPARQLTarget(s) and a parameterised SPARQLTargetType: reported focus nodes = core targets + ?this solutions (advanced on), = core targets (advanced off), = model; "
                 "(d) the function called from a sh:sparql constraint and from a TripleRule object expression: results / derived triples = the declared query run directly; advanced=False ignores functions, rules, targets and expressions; "
                 "(a) for every function the loader's parameter order = model",
@@ -356,5 +431,5 @@ def main(tier, seed, replay=None):
         "exhaustive": False,
     })
     rep.coverage = cov
-    rep.assumptions = ["sh:optional parameters, sh:union / sh:intersection / sh:filterShape node expressions and JS functions are not generated"]
+    rep.assumptions = ["sh:optional parameters and JS functions are not generated; conformance to a sh:filterShape is an oracle row (computed by an independent Python predicate per filter shape)"]
     return rep.finish()
